@@ -160,7 +160,7 @@ func exerciseTx(t vk.TB, tn *testNode, wire []byte, meta *txCase) (stage string)
 	}
 	var serr, cerr elaerr.ELAError
 	if p, pv, frame := vk.Catch(func() { serr = tn.Chain.CheckTransactionSanity(height, tx) }); p {
-		vk.Report(t, "C03:panic:"+frame, fmt.Sprintf("CheckTransactionSanity(%s) panicked: %v", tx.TxType().Name(), pv), render(pv))
+		vk.Report(t, panicSig(frame, pv), fmt.Sprintf("CheckTransactionSanity(%s) panicked: %v", tx.TxType().Name(), pv), render(pv))
 		return "sanity-panic"
 	}
 	if serr != nil {
@@ -175,7 +175,7 @@ func exerciseTx(t vk.TB, tn *testNode, wire []byte, meta *txCase) (stage string)
 	if p, pv, frame := vk.Catch(func() {
 		_, cerr = tn.Chain.CheckTransactionContext(height, tx, 0, tn.tip.Timestamp+1)
 	}); p {
-		vk.Report(t, "C03:panic:"+frame, fmt.Sprintf("CheckTransactionContext(%s) panicked: %v", tx.TxType().Name(), pv), render(pv))
+		vk.Report(t, panicSig(frame, pv), fmt.Sprintf("CheckTransactionContext(%s) panicked: %v", tx.TxType().Name(), pv), render(pv))
 		return "context-panic"
 	}
 	if cerr != nil {
